@@ -33,7 +33,7 @@ PROPS["C07"] = {
 }
 
 PROPS["C02"] = {
-    "units": ["h1_transfer_encoding", "h1_codec"],
+    "units": ["h1_transfer_encoding", "h1_codec", "h1_dispatcher_io"],
     "kani": [],
     "technique": "Verus contracts on the extracted real TransferEncoding encoder against an RFC 7230 chunk-framing oracle (exact bytes appended, length enforcement, terminator exactly once, short body is an error)",
     "level_text": "deductive proof, for all chunk contents/lengths and encoder states, that TransferEncoding::encode/encode_eof append exactly the oracle's bytes (chunked: hex CRLF data CRLF, terminator once; sized: cut to the declared length; eof: pass-through) and that a short sized body yields UnexpectedEof",
@@ -91,6 +91,25 @@ PROPS["C16"] = {
     "level_note": "assumes the read callback returns between 1 and max_bytes bytes on success (chunked_read_file_callback_sync: file.take(max_bytes), error on 0 bytes) and the Future/Context shims; pin projection erased (R3/R4)",
     "not_decided": ["path containment (PathBufWrap::parse_path): bounded Kani harness under construction", "Range header parsing (http_range dependency) and the Content-Range arithmetic inside NamedFile::into_response", "conditional headers (If-Match/If-None-Match/If-Modified-Since)", "joining the parsed relative path onto the root on a filesystem with symlinks"],
     "assumptions": ["poll_next precondition: offset + (size - counter) fits u64 (the range lies inside the file)"],
+}
+
+PROPS["C04"] = {
+    "units": ["h1_dispatcher_io", "h1_payload"],
+    "kani": [],
+    "technique": "Verus contracts with ghost logs on the extracted real InnerDispatcher::{poll_flush, read_available, can_read} (socket accepted-bytes log, waker registration tokens) and on the body channel (h1_payload)",
+    "level_text": "deductive proof, for every partial-write pattern (all n accepted per poll_write, Pending at any point), that poll_flush conserves bytes: socket-accepted ++ write_buf is invariant, the socket only ever receives a prefix of the buffered bytes in order, Ready(Ok) means everything was written and the buffer is empty, Pending means the socket registered the waker and exactly the written prefix was advanced; that read_available only appends, stops at the buffer cap, and whenever it reports `no more for now` a wake-up source exists (socket registered, self-wake, or the paused body consumer's io waker); body-channel wake-ups are C07's contracts",
+    "level_note": "assumes the AsyncRead/AsyncWrite contracts stated in shims/asyncio.rs (Pending registers the waker; a write accepts a prefix; not-ready is Pending not WouldBlock), Waker token, BytesMut shim; InnerDispatcher reduced to the projected fields; pin projection erased (R3/R4)",
+    "not_decided": ["that Dispatcher::poll as a whole never returns Pending without a registration, and termination once the peer is done (liveness over the whole state machine): no contract within reach", "timer wake-ups (h1/timer.rs)"],
+    "assumptions": ["poll_flush/read_available precondition: the io object is present (it is only taken on upgrade)"],
+}
+PROPS["C05"] = {
+    "units": ["h1_dispatcher_io", "h1_payload", "multipart_payload", "web_payload_body"],
+    "kani": [],
+    "technique": "Verus contracts on the individual guard mechanisms: read_available's buffer cap, the body channel's back-pressure flag, bounded extractor/multipart buffers",
+    "level_text": "deductive proof of each guard under contract, for all inputs: read_available attempts no read once read_buf holds MAX_BUFFER_SIZE bytes and otherwise only appends; the body channel's need_read flag is exactly (buffered < 32 KiB) after every feed/poll and can_read refuses to read while the consumer applies back-pressure; poll_stream/append_pending never grow the multipart buffer past its limit; HttpMessageBody never buffers beyond its limit",
+    "level_note": "each guard is proved separately; their composition into one per-connection high-water mark over all schedules is not decided; MAX_PIPELINED_MESSAGES and the SendPayload write-buffer loop live inside poll_request/poll_response (not under contract); the 431 path (Request::decode TooLarge) is not under contract",
+    "not_decided": ["Request::decode: Partial with >= MAX_BUFFER_SIZE bytes => TooLarge (httparse call site)", "poll_request: at most MAX_PIPELINED_MESSAGES queued", "poll_response SendPayload loop bounded by h1_write_buffer_size", "the size of one socket read (spare capacity chosen by BytesMut::reserve)", "global maximum over executions"],
+    "assumptions": [],
 }
 
 _PENDING = "not claimed yet: contracts for this property are still under construction in this session"
